@@ -17,10 +17,13 @@
 (* at the cap, which the contract allows (Cap slots are held).                                         *)
 EXTENDS Integers, FiniteSets, TLC
 
-CONSTANTS Cap, Ids, ConnsC, IdOf     \* IdOf: [ConnsC -> Ids], the client id a connection attempt uses
+CONSTANTS Cap, Ids, ConnsC, IdOf,    \* IdOf: [ConnsC -> Ids], the client id a connection attempt uses
+          StaleTakeover             \* FALSE: the code - Register looks the id up again under the lock; TRUE: "this is a takeover" is
+                                    \* decided in CheckEarly (which then skips the cap check) and believed by Register although the
+                                    \* Connect pipeline runs in between (lead generation: must be refuted)
 
 VARIABLES held,    \* [subset of Ids -> ConnsC]
-          st,      \* [ConnsC -> "new" | "early" | "up" | "refused" | "ending" | "gone"]
+          st,      \* [ConnsC -> "new" | "early" | "earlyT" | "up" | "refused" | "ending" | "gone"]
           obs      \* the step just taken
 
 cvars == <<held, st, obs>>
@@ -47,9 +50,13 @@ Release(c) ==
     /\ obs' = [a |-> "release", c |-> c, n |-> N]
 
 (* ---- implementation-shaped steps, each mapped to a contract action or to a stutter ---- *)
+(* between CheckEarly and Register the Connect (authentication) pipeline runs, outside every lock and *)
+(* for as long as it likes: any number of other connections may come and go meanwhile                  *)
 CheckEarly(c) ==
     /\ st[c] = "new"
-    /\ IF N >= Cap
+    /\ IF StaleTakeover /\ IdOf[c] \in DOMAIN held
+       THEN UNCHANGED held /\ obs' = [a |-> "early", c |-> c, n |-> N] /\ st' = [st EXCEPT ![c] = "earlyT"]
+       ELSE IF N >= Cap
        THEN Refuse(c) /\ st' = [st EXCEPT ![c] = "refused"]
        ELSE UNCHANGED held /\ obs' = [a |-> "early", c |-> c, n |-> N] /\ st' = [st EXCEPT ![c] = "early"]
 Register(c) ==
@@ -57,6 +64,10 @@ Register(c) ==
     /\ IF IdOf[c] \in DOMAIN held \/ N < Cap
        THEN Accept(c) /\ st' = [st EXCEPT ![c] = "up"]
        ELSE Refuse(c) /\ st' = [st EXCEPT ![c] = "refused"]
+RegisterStale(c) ==    \* (StaleTakeover only) registered as the takeover it was when it was looked up
+    /\ st[c] = "earlyT" /\ st' = [st EXCEPT ![c] = "up"]
+    /\ held' = With(held, IdOf[c], c)
+    /\ obs' = [a |-> "accept", c |-> c, n |-> N, takeover |-> IdOf[c] \in DOMAIN held]
 EndConn(c) ==          \* the client (or the network) ends the connection
     /\ st[c] = "up" /\ st' = [st EXCEPT ![c] = "ending"]
     /\ UNCHANGED held /\ obs' = [a |-> "end", c |-> c, n |-> N]
@@ -64,7 +75,7 @@ Remove(c) ==           \* removeClient at the end of the teardown
     /\ st[c] = "ending" /\ st' = [st EXCEPT ![c] = "gone"]
     /\ Release(c)
 
-CNext == \E c \in ConnsC : CheckEarly(c) \/ Register(c) \/ EndConn(c) \/ Remove(c)
+CNext == \E c \in ConnsC : CheckEarly(c) \/ Register(c) \/ RegisterStale(c) \/ EndConn(c) \/ Remove(c)
 CSpec == CInit /\ [][CNext]_cvars
 
 (* ---- the property ---- *)
